@@ -582,6 +582,17 @@ def subscript_other(self, base, e, st, spec):
                 st.assume(o["keys"][k])
             return Handle(base, k)
         q = self.method_contract(o["$cls"], "__getitem__")
+        if q is None and not spec:
+            # several contract variants of __getitem__: the kind of key selects one (`c[annotator]` / `c[annotator, index]`)
+            idx_nodes = self.index_list(e)
+            suffix = "#index" if len(idx_nodes) > 1 or isinstance(idx_nodes[0], ast.Tuple) else "#annotator"
+            fpath = CLASS_FILE.get(o["$cls"])
+            cand = f"{fpath}::{o['$cls']}.__getitem__{suffix}"
+            if cand in self.registry:
+                if suffix == "#index":
+                    key = Tup([self.ev(x, st, spec) for x in (idx_nodes if len(idx_nodes) > 1 else idx_nodes[0].elts)])
+                    return self.call_contract(cand, e, st, recv=base, argvals=[key])
+                q = cand
         if q is not None and not spec:
             return self.call_contract(q, e, st, recv=base, argvals=[self.ev(self.index_list(e)[0], st, spec)])
     s = set_of(self, st, base)
